@@ -264,11 +264,11 @@ Definition tbl_r (t : list (N * N)) (o : N) : N := snd (nth (N.to_nat o) t (0, 0
 Definition tbl_lev (t : list N) (o : N) : N := nth (N.to_nat o) t 0.
 
 (* what a table must satisfy for the round-trip theorem: every operator is left associative
-   (l < r) and the prefix power exceeds every left power *)
+   (l < r) and the prefix power is at least every right power (so above every left power) *)
 Definition WellFormedTable (nops : N) (lbp rbp : N -> N) (pbp : N) : Prop :=
-  forall o, o < nops -> lbp o < rbp o /\ lbp o < pbp.
+  forall o, o < nops -> lbp o < rbp o /\ rbp o <= pbp.
 Definition wf_tableb (nops : N) (lbp rbp : N -> N) (pbp : N) : bool :=
-  forallb (fun o => (lbp o <? rbp o) && (lbp o <? pbp)) (N_seq nops).
+  forallb (fun o => (lbp o <? rbp o) && (rbp o <=? pbp)) (N_seq nops).
 Definition tables_agreeb (nops : N) (l1 r1 l2 r2 : N -> N) : bool :=
   forallb (fun o => (l1 o =? l2 o) && (r1 o =? r2 o)) (N_seq nops).
 (* documented levels induce the same grouping as the table *)
